@@ -18,7 +18,8 @@
 EXTENDS Integers, Sequences, FiniteSets, TLC, Json
 
 CONSTANTS MaxEv,     \* deliveries per behaviour
-          MaxSwap    \* swaps per behaviour
+          MaxSwap,   \* swaps per behaviour
+          Modes      \* values of --enable-endpointslices-api explored (subset of BOOLEAN)
 
 Res == {"ConfigMap", "Ingress", "IngressClass", "Service", "Secret", "Endpoints", "Pod", "Gateway", "GatewayClass", "HTTPRoute", "TCPRoute"}
 (* kinds whose handler asks for a full sync (Gateway API resources have no partial parsing) *)
@@ -35,22 +36,36 @@ TCPCM == "ingress/tcp"
 CMEvents == [res : {"ConfigMap"}, name : {GlobalCM, TCPCM, "ingress/other", "x/other"}, op : Ops, v : 1..3]
 IngEvents == [res : {"Ingress"}, name : {"a/i1", "a/i2"}, op : Ops, old : BOOLEAN, new : BOOLEAN]
 ClsEvents == [res : {"IngressClass"}, name : {"haproxy"}, op : Ops, old : BOOLEAN, new : BOOLEAN]
-PlainEvents == [res : {"Service", "Secret", "Endpoints"}, name : {"a/x", "a/y"}, op : Ops]
+PlainEvents == [res : {"Service", "Secret"}, name : {"a/x", "a/y"}, op : Ops]
+(* Endpoints: chg = the subsets differ between the old and the new object (only an update looks at it).
+   EndpointSlice: one slice object a/x-k1 labelled with the service it belongs to (svc = "": no label, the slice goes by
+   its own name); chg = its endpoints differ.  Which of the two kinds is listened to follows the command-line option
+   (variable slice); both feed the same link kind "Endpoints", a slice under the name of its service. *)
+EpEvents == [res : {"Endpoints"}, name : {"a/x", "a/y"}, op : Ops, chg : BOOLEAN]
+SliceEvents == [res : {"EndpointSlice"}, name : {"a/x-k1"}, svc : {"a/x", ""}, op : Ops, chg : BOOLEAN]
 PodEvents == [res : {"Pod"}, name : {"a/pod"}, op : Ops, term : BOOLEAN]
 (* Gateway API v1 (and TCPRoute v1alpha2): no change description of their own, a link, an object entry and a full sync *)
 GwEvents == [res : {"Gateway", "HTTPRoute", "TCPRoute"}, name : {"g/x"}, op : Ops]
 GwClsEvents == [res : {"GatewayClass"}, name : {"gc"}, op : Ops, old : BOOLEAN, new : BOOLEAN]
-Events == CMEvents \cup IngEvents \cup ClsEvents \cup PlainEvents \cup PodEvents \cup GwEvents \cup GwClsEvents
+Events == CMEvents \cup IngEvents \cup ClsEvents \cup PlainEvents \cup EpEvents \cup SliceEvents \cup PodEvents \cup GwEvents \cup GwClsEvents
+
+VARIABLE slice      \* --enable-endpointslices-api, fixed for an execution
+
+(* the kind and the name an event is filed under *)
+LinkRes(e) == IF e.res = "EndpointSlice" THEN "Endpoints" ELSE e.res
+LinkName(e) == IF e.res = "EndpointSlice" /\ e.svc # "" THEN e.svc ELSE e.name
 
 (* the predicates of the handlers *)
 Accepted(e) ==
     CASE e.res = "ConfigMap" -> e.name # "x/other"
+      [] e.res = "Endpoints" -> ~slice /\ (e.op = "update" => e.chg)
+      [] e.res = "EndpointSlice" -> slice /\ (e.op = "update" => e.chg)
       [] e.res \in {"Ingress", "IngressClass", "GatewayClass"} ->
             (CASE e.op = "add" -> e.new [] e.op = "del" -> e.old [] OTHER -> e.old \/ e.new)
       [] e.res = "Pod" -> (CASE e.op = "add" -> FALSE [] e.op = "update" -> e.term [] OTHER -> TRUE)
       [] OTHER -> TRUE
 
-Key(e) == e.op \o "/" \o e.res \o ":" \o e.name
+Key(e) == e.op \o "/" \o LinkRes(e) \o ":" \o LinkName(e)
 
 AppendDedup(s, x) == IF \E i \in 1..Len(s) : s[i] = x THEN s ELSE Append(s, x)
 
@@ -76,7 +91,7 @@ Apply(c, e) ==
             ELSE IF e.old THEN [c EXCEPT !.id = Append(@, e.name)] ELSE c
       [] OTHER -> c
 
-Compose(c, e) == [c EXCEPT !.links[e.res] = AppendDedup(@, e.name), !.objs = AppendDedup(@, Key(e))]
+Compose(c, e) == [c EXCEPT !.links[LinkRes(e)] = AppendDedup(@, LinkName(e)), !.objs = AppendDedup(@, Key(e))]
 Notify(c, e) == IF e.res \in FullRes THEN [c EXCEPT !.full = TRUE] ELSE c
 
 Handle(c, e) == Notify(Compose(Apply(c, e), e), e)
@@ -91,9 +106,11 @@ VARIABLES ch,       \* the accumulator
           hist,     \* schedule so far: deliveries and swaps (what the harness replays)
           win       \* ghost: accepted events of the current window
 
-vars == <<ch, batches, queue, hist, win>>
+vars == <<ch, batches, queue, hist, win, slice>>
 
-Init == ch = EmptyCh(0, 0) /\ batches = <<>> /\ queue = <<>> /\ hist = <<>> /\ win = <<>>
+Init == /\ ch = EmptyCh(0, 0) /\ batches = <<>> /\ queue = <<>> /\ win = <<>>
+        /\ slice \in Modes
+        /\ hist = <<[ev |-> "Mode", slice |-> slice]>>
 
 NDeliv == Cardinality({i \in 1..Len(hist) : hist[i].ev = "Deliver"})
 NSwap  == Len(batches)
@@ -106,7 +123,7 @@ Deliver(e) ==
             /\ queue' = Append(queue, IF e.res \in FullRes THEN "full" ELSE "partial")
             /\ win' = Append(win, e)
        ELSE UNCHANGED <<ch, queue, win>>
-    /\ UNCHANGED batches
+    /\ UNCHANGED <<batches, slice>>
 
 Swap ==
     /\ NSwap < MaxSwap
@@ -114,7 +131,7 @@ Swap ==
     /\ ch' = NextCh(ch)
     /\ win' = <<>>
     /\ hist' = Append(hist, [ev |-> "Swap"])
-    /\ UNCHANGED queue
+    /\ UNCHANGED <<queue, slice>>
 
 Next == (\E e \in Events : Deliver(e)) \/ Swap
 Spec == Init /\ [][Next]_vars
@@ -127,7 +144,7 @@ SeqToSet(s) == {s[i] : i \in 1..Len(s)}
 (* every accepted event of the window has its object list entry and its resource link, nothing else has *)
 Listed(b, w) ==
     /\ SeqToSet(b.objs) = {Key(w[i]) : i \in 1..Len(w)}
-    /\ \A r \in Res : SeqToSet(b.links[r]) = {w[i].name : i \in {j \in 1..Len(w) : w[j].res = r}}
+    /\ \A r \in Res : SeqToSet(b.links[r]) = {LinkName(w[i]) : i \in {j \in 1..Len(w) : LinkRes(w[j]) = r}}
     /\ \A i, j \in 1..Len(b.objs) : i # j => b.objs[i] # b.objs[j]
 
 IngSel(w, which) ==
